@@ -15,6 +15,8 @@ namespace c04
         K_CPLX_STORE, // real ++ imag register bytes from reg_in -> interleaved array
         K_GATHER, // lanes elements base[idx[i]] -> reg_out
         K_SCATTER, // reg_in lanes -> base[idx[i]]
+        K_CPLX2_LOAD, // split complex load: lanes reals at p, lanes imaginaries at p2 (p2 may be null: imaginary part is 0) -> real ++ imag in reg_out
+        K_CPLX2_STORE, // split complex store: real lanes -> p, imaginary lanes -> p2
         K_CVT_LOAD, // converting load: lanes elements of type U (mem_elem bytes each) at p -> batch<T>: raw register bytes in reg_out
         K_CVT_STORE, // converting store: batch<T> from reg_in -> lanes elements of type U at p
         K_CVT_GATHER, // converting gather: batch<T>::gather(U const*, index)
@@ -29,6 +31,7 @@ namespace c04
     struct Ctx
     {
         unsigned char* p = nullptr; // element pointer into the simulated address space (window start / gather base)
+        unsigned char* p2 = nullptr; // second window (split complex forms)
         const unsigned char* reg_in = nullptr;
         unsigned char* reg_out = nullptr;
         const int64_t* idx = nullptr;
